@@ -68,10 +68,14 @@ def scenario(B, case):
 
     W = World(B, case["world"])
     C = W.h.Config()
-    # unrelated earlier activity: consume some keys, then re-seed
+    # unrelated earlier activity: consume some keys under another seed, then under the SAME seed value, then re-seed
+    # (re-seeding with the value that is already active must rewind the chain as well)
+    seed = "S" if B.mode == "sym" else 20240917
+    for _ in range(2):
+        C.random_key
+    C.set_seed(seed)
     for _ in range(3):
         C.random_key
-    seed = "S" if B.mode == "sym" else 20240917
     n_before = len(B.get_draws())
     C.set_seed(seed)
     what = case["what"]
